@@ -362,6 +362,14 @@ func (sv *negServer) serve(conn net.Conn) {
 				w("<resumed xmlns='" + nsSM + "' previd='" + xmlAttrEscape(previd) + "' h='0'/>")
 			case "otherid":
 				w("<resumed xmlns='" + nsSM + "' previd='not-" + xmlAttrEscape(previd) + "' h='0'/>")
+			case "noprev":
+				// a confirmation that names no session (no previd at all, or an empty one): it does not confirm the
+				// session the client asked for
+				if sv.variant%2 == 0 {
+					w("<resumed xmlns='" + nsSM + "' h='0'/>")
+				} else {
+					w("<resumed xmlns='" + nsSM + "' previd='' h='0'/>")
+				}
 			case "failed":
 				// a refusal with the usual condition (not one the decoder knows), without any, with one it knows
 				switch sv.variant % 3 {
@@ -1025,7 +1033,7 @@ var negAlt = map[string][]string{
 	"auth": {"failure", "other", "undec"},
 	"o3":   {"false"},
 	"f3":   {"none"},
-	"res":  {"otherid", "failed", "other", "undec"},
+	"res":  {"otherid", "noprev", "failed", "other", "undec"},
 	"bind": {"error", "nobind", "noniq", "undec"},
 	"sess": {"error", "noniq", "undec"},
 	"en":   {"enabled0", "failed", "other", "undec"},
